@@ -616,6 +616,11 @@ def c03_r8(ctx: Ctx, rule):
                 t0 = a.targets[0]
                 if isinstance(t0, (ast.Tuple, ast.List)) and t0.elts and isinstance(t0.elts[0], ast.Name):
                     splitvars.add(t0.elts[0].id)
+        rsplits = [a for a in walk_function(fi.node) if isinstance(a, ast.Call) and call_name(a) in ("rsplit", "rpartition") and a.args and isinstance(a.args[0], ast.Constant) and a.args[0].value == ":"]
+        res.ob("a 'prefix:local' string is cut at its FIRST colon (split / partition, not rsplit): %s" % (not rsplits))
+        for a in rsplits:
+            res.fail(rule.id, "prefix-cut-at-last-colon", ctx.loc(q, a), "valid_qualified_name cuts 'prefix:local' at the last colon (%s): a local part containing ':' moves into the prefix" % norm(a)[:40],
+                     "the name ex:run:42 (local part 'run:42') is written as 'ex:run:42' and re-read as prefix 'ex:run': the reload raises or drops it")
         if splitvars:
             g = get_cfg(ctx, q)
             facts = notin_facts(ctx, q, g, fresh)
@@ -626,6 +631,27 @@ def c03_r8(ctx: Ctx, rule):
                 res.fail(rule.id, "compaction-before-prefix-lookup", ctx.loc(q, l),
                          "a 'prefix:local' string can be compacted as a URI although its prefix is bound in this scope (the loop is not guarded by `%s not in self`)" % sorted(splitvars)[0],
                          "prefix doi -> https://doi.org/ plus a namespace whose URI is 'doi:10.1000/': the name doi:10.1000/182 handed out for https://doi.org/10.1000/182 re-resolves to the URI 'doi:10.1000/182'")
+    # the string / URI part accepts both spellings of a full URI: a str and an Identifier object
+    f0 = ctx.fn(q0)
+    # the gate: `if not isinstance(arg, T): return None` - only T gets past it
+    guards = []
+    for q in ctx.helper_closure(q0):
+        for n in walk_function(ctx.fn(q).node):
+            if isinstance(n, ast.If) and isinstance(n.test, ast.UnaryOp) and isinstance(n.test.op, ast.Not) and isinstance(n.test.operand, ast.Call) and call_name(n.test.operand) == "isinstance" \
+                    and len(n.test.operand.args) == 2 and any(isinstance(b, ast.Return) for b in n.body):
+                guards.append(n.test.operand)
+    if not guards:
+        raise AnalysisError("valid_qualified_name: the type gate of the string / URI part was not found")
+    admitted = set()
+    for gcall in guards:
+        elts = gcall.args[1].elts if isinstance(gcall.args[1], ast.Tuple) else [gcall.args[1]]
+        for e in elts:
+            admitted.add(norm(e).rsplit(".", 1)[-1])
+    both = {"str", "Identifier"} <= admitted
+    res.ob("valid_qualified_name's type tests on its argument admit %s: str and Identifier both: %s" % (sorted(admitted), both))
+    if not both:
+        res.fail(rule.id, "uri-spelling-not-admitted", ctx.loc(q0, f0.node), "valid_qualified_name only recognises %s as spellings of a name: %s is rejected" % (sorted(admitted), sorted({"str", "Identifier"} - admitted)),
+                 "get_record(Identifier('<full URI>')) returns [] while get_record('<full URI>') finds the record")
     for q, l in loops:
         it = norm(l.iter)
         ok = it in ("self.values()", "self.items()", "list(self.values())", "self")
@@ -965,3 +991,6 @@ for _p, _r, _d in (("C03", "C03.R13", "resolving, re-homing and printing never c
                    ("C09", "C09.R11", "flattened/update/add_bundle re-home names without changing URIs"), ("C10", "C10.R11", "emitted URIs are the in-memory URIs"),
                    ("C11", "C11.R13", "loaded URIs are the URIs of the text")):
     RULES.setdefault(_p, []).append(Rule(_r, "URIs, prefixes and names are opaque text: URL / Unicode rewriting functions are called only by the file-destination code", 1, opaque_text_rule, "F-WRITE", _d))
+
+RULES.setdefault("C01", []).append(Rule("C01.R17", "a 'prefix:local' string is cut at its first colon, and compaction is the last resort (shared with C03.R8): the JSON reader resolves the names the writer printed", 1, _with_inlined_manager(c03_r8), "F-PATH",
+                                        "names whose local part contains ':' survive the JSON round trip"))
